@@ -153,6 +153,12 @@ theorem savepoint_folds (s : St) (p : Snap) (ops srs : List Nat) (hp : s.pending
     step s (.savepoint ops srs) = ({ s with pending := some { p with isSavepoint := true } }, .spExisting p.id, none) := by
   simp [step, hp, hs]
 
+/-- D12 (repaired): the old rule appended a runner's split states again on a repeated acknowledgement. -/
+theorem oldDuplicateAck_counterexample :
+    let p0 : Snap := { (newSnap 1 [1] [1] false) with srs := [(1, true)], srAcks := [(1, [7])], splitStates := [7] }
+    (addSrOld p0 1 [7]).map (·.splitStates) = some [7, 7] ∧ (addSr p0 1 [7]).map (·.splitStates) = some [7] := by
+  decide
+
 /-! ## non-vacuity -/
 
 def demo : List Call :=
